@@ -42,6 +42,7 @@ def required(tier):
         "inputs.long_multiply_corrupted": 1000,
         "grammars.lex_corpus": 6,
         "errors.multiple": 2000,
+        "raised.compared_with_errors_seen_before": 500,
         "glr.hot_inputs_varied": 30,
         "glr.recovery_event.second_error_before_any_shift_after_partial_kill": 100,
         "nontrivial": 3000 if tier == "quick" else 30000,
@@ -115,8 +116,16 @@ class GlrRecoveryMonitor:
         GL.GLRParser._do_shifts = self.orig_shifts
 
 
+SEEN = []  # start positions of the errors handed to the recording strategy during the current parse
+
+
 def strategies(pg):
     state = {"inj": 0}
+
+    def recording(head, error, default):
+        # the default strategy, observed: which errors were there before the parse ended
+        SEEN.append(error.location.start_position)
+        return default(head)
 
     def skip(head, error, default):
         head.position += 1
@@ -133,7 +142,7 @@ def strategies(pg):
         head.token_ahead = Token(sym, sym.name, head.position, length=0)
         return True
 
-    return {"default": True, "skip": skip, "inject": inject}, state
+    return {"default": True, "skip": skip, "inject": inject, "recording": recording}, state
 
 
 def corruptions(rng, w, alphabet):
@@ -235,7 +244,7 @@ def one_grammar(ctx, lmon, rmon, g, alphabet, maxlen):
         inputs = [glrwork.relayout(w, rng) if rng.random() < 0.3 else w for w in inputs]
     case0 = {"grammar": text, "g": g.to_json(), "comments": comments}
     for kind in ("LR", "GLR"):
-        for sname in ("default", "skip", "inject"):
+        for sname in ("default", "skip", "inject", "recording"):
             if sname != "default" and rng.random() < 0.5:
                 continue
             # a fifth of the parsers need not consume the whole input (the end-of-input pseudo
@@ -277,6 +286,7 @@ def check(ctx, lmon, rmon, g, pg, pkeys, parser, plain, kind, sname, det, case, 
     if case.get("prefix_mode"):
         ctx.count("config.consume_input_off")
     rec_before = lmon.c["recoveries"] + rmon.total
+    del SEEN[:]
     rmon.count = 0
     rmon.shifted = True
     rmon.hot = False
@@ -317,6 +327,13 @@ def check(ctx, lmon, rmon, g, pg, pkeys, parser, plain, kind, sname, det, case, 
         return
     if okind == "syntax":
         ctx.count("recovered.raised" if recovered else "raised_without_recovery")
+        # "... or raises the last SyntaxError": the error that ends the parse is never an earlier
+        # one than the errors the (recording) strategy was handed before
+        if sname == "recording" and SEEN:
+            ctx.count("raised.compared_with_errors_seen_before")
+            sp = val.location.start_position
+            if isinstance(sp, int) and any(isinstance(x, int) and x > sp for x in SEEN):
+                ctx.violation("raised-error-is-not-the-last-one", case, "parse raised the error at %s, the strategy had been handed errors at %s before" % (sp, list(SEEN)))
         return
     errors = list(parser.errors)
     if recovered:
